@@ -73,10 +73,17 @@ func (s *Session) Call(fs FS, cmd string, a []string) (res string, buf *Kept, ok
 				return "err"
 			}
 			bad := false
-			for _, c := range chunks {
+			for i, c := range chunks {
 				n, err := w.Write(c)
 				if err != nil || n != len(c) {
 					bad = true
+				}
+				// io.Writer: "implementations must not retain p" - the caller reuses its buffer at once
+				// (the last chunk stays intact: it is the kept buffer of the alias probes)
+				if i < len(chunks)-1 {
+					for j := range c {
+						c[j] ^= 0xa5
+					}
 				}
 			}
 			if err := w.Close(); err != nil {
